@@ -193,7 +193,8 @@ def run(tier):
     n = 500 if tier == "quick" else 8000
     blocks = gen.blocks(sd * 977 + 11, n, max_snippets=6)
     # hashes of written ranges used as keys / addresses, pairs of hashes: the dependence comparison has branches of its own for them
-    blocks += rng.sample(gen.mapping_corpus(), 60 if tier == "quick" else 400) + rng.sample(gen.hash_pair_corpus(), 30 if tier == "quick" else 200)
+    mc_, hc_ = gen.mapping_corpus(), gen.hash_pair_corpus()
+    blocks += rng.sample(mc_, min(len(mc_), 60 if tier == "quick" else 400)) + rng.sample(hc_, min(len(hc_), 30 if tier == "quick" else 200))
     osets = [["-greedy"], ["-greedy", "-storage"], ["-greedy", "-no-simplification"], ["-greedy", "-partition"]]
     tasks = []
     for i, b in enumerate(blocks):
